@@ -52,15 +52,15 @@ pub fn evaluate(case: &Case, results: &[Vec<RunResult>], report: &mut CaseReport
 pub fn budget(property: &str, tier: Tier) -> u64 {
     match (property, tier) {
         ("C09", Tier::Quick) => 9_000,
-        ("C09", Tier::Thorough) => 150_000,
+        ("C09", Tier::Thorough) => 60_000,
         ("C10", Tier::Quick) => 30_000,
-        ("C10", Tier::Thorough) => 600_000,
+        ("C10", Tier::Thorough) => 300_000,
         ("C12", Tier::Quick) => 80_000,
         ("C12", Tier::Thorough) => 2_000_000,
         ("C14", Tier::Quick) => 20_000,
         ("C14", Tier::Thorough) => 300_000,
         ("C19", Tier::Quick) => 8_000,
-        ("C19", Tier::Thorough) => 100_000,
+        ("C19", Tier::Thorough) => 200_000,
         (_, Tier::Quick) => 10_000,
         (_, Tier::Thorough) => 300_000,
     }
